@@ -62,7 +62,7 @@ DELIVERABLES, all under {wt}/SEED/ :
                  suite does not notice, and "Side remarks": anything odd you noticed in the UNCHANGED tree while looking.
 
 PROTOCOL you must follow before you finish: (a) run the full suite with your change and confirm 664 passed / the same 6 failed;
-(b) run `sh SEED/demo/run.sh {wt}` with the change → FAIL; (c) `git stash` (or `git apply -R SEED/patch.diff`), run it again →
+(b) run `sh SEED/demo/run.sh {wt}` with the change → FAIL; (c) `git apply -R SEED/patch.diff` (do NOT use `git stash`: the stash stack is shared with other authors' worktrees), run it again →
 PASS; (d) restore the change so that the worktree ends with the change applied. Report the three outcomes in your final message
 (a few lines; the files are what counts). Useful: `target/debug/steel file.scm` runs a file; `target/debug/steel < lines.txt`
 feeds the REPL one evaluation per line on ONE engine (good for evaluation histories); STEEL_JIT=false disables the JIT; debug
